@@ -1,4 +1,5 @@
 """C04 - relaxation to the unit Gaussian (API level; process level through /BunchLength, /EnergySpread)"""
+import math
 import os
 import sys
 
@@ -15,7 +16,9 @@ GEO = [[], ["--PhaseSpaceSize", 10], ["--PhaseSpaceShiftX", 1], ["--PhaseSpaceSh
        ["--FPTrack", 0], ["--FPTrack", 1], ["--FPTrack", 2], ["--LinearRF", "false"], ["--InterpolationPoints", 3], ["--SavePhaseSpace", 2],
        ["--RenormalizeCharge", 7], ["--InterpolateClamped", "true"], ["--CutoffFreq", 0],
        # the synchrotron frequency given (it overrides the momentum compaction factor) at another value, alone, with the sinusoidal RF, and next to an alpha0 that is then not in force
-       ["-f", 30000.0], ["-f", 30000.0, "--LinearRF", "false"], ["--alpha0", 2e-3, "--LinearRF", "false"], ["--alpha0", 8e-3]]
+       ["-f", 30000.0], ["-f", 30000.0, "--LinearRF", "false"], ["--alpha0", 2e-3, "--LinearRF", "false"], ["--alpha0", 8e-3],
+       # the initial distribution read from a results-type file (a Gaussian of the requested size written by the check), with either RF model
+       ["@startfile"], ["@startfile", "--LinearRF", "false"]]
 
 
 def process_level(res, tier):
@@ -47,14 +50,22 @@ def process_level(res, tier):
         T = 8 * td if fptype == 3 else (8.0 if fptype <= 0 else 0.4 * td)
         n += (1 if geo == 2 else 0)
         fsc = GEO[geo][GEO[geo].index("-f") + 1] if "-f" in GEO[geo] else fs
-        a = GEO[geo] + ["-s", n, "-N", steps, "-T", T, "-n", 8, "-G", 0] + ([] if "-f" in GEO[geo] else ["-f", fs]) + ["-d", (td / fsc if fptype >= 0 else 0), "--derivation", stencil, "--FPType", (fptype if fptype >= 0 else 3),
+        gopts = [x for x in GEO[geo] if x != "@startfile"]
+        startf = None
+        if "@startfile" in GEO[geo]:
+            startf = os.path.join(wd, "start_%d_%d_%g_%d_%d.h5" % c)
+            d_ = 12.0 / (n - 1)
+            vals = [math.exp(-0.5 * (((-6 + x * d_) / zoom) ** 2 + ((-6 + y * d_) / zoom) ** 2)) / (2 * math.pi * zoom * zoom) for x in range(n) for y in range(n)]
+            pl.write_start_h5(startf, n, vals)
+            gopts += ["-i", startf]
+        a = gopts + ["-s", n, "-N", steps, "-T", T, "-n", 8, "-G", 0] + ([] if "-f" in GEO[geo] else ["-f", fs]) + ["-d", (td / fsc if fptype >= 0 else 0), "--derivation", stencil, "--FPType", (fptype if fptype >= 0 else 3),
              "--InitialDistZoom", zoom, "--padding", 2]
         r = pl.run(exe, a, wd, out="o_%d_%d_%g_%d_%d.h5" % c)
         doc = pl.h5(r["h5"], maxv=20000) if r["rc"] == 0 else None
-        for f in (r["h5"], r["h5"] + ".cfg", r["h5"] + ".log"):
+        for f in (r["h5"], r["h5"] + ".cfg", r["h5"] + ".log", startf):
             try:
                 os.remove(f)
-            except OSError:
+            except (OSError, TypeError):
                 pass
         return c, r, doc
     for c, r, doc in pl.pmap(do, cases):
